@@ -1543,3 +1543,11 @@ def torch_index_select(interp, t, dim, index):
     shape = list(t.shape)
     shape[dim] = L
     return T.from_fn(shape, t.dtype, lambda idx: rd(list(idx[:dim]) + [ir([idx[dim]])] + list(idx[dim + 1:])), kind=t.kind)
+
+
+@method("masked_fill")
+def t_masked_fill(interp, t, mask, value):
+    """Docs: out-of-place; elements where mask (broadcast to t's shape) is True are replaced by value."""
+    if isinstance(value, STensor):
+        value = value.at([0] * value.rank)
+    return T.where3(_boolify(mask), T.cast_scalar(value, t.dtype), t)
